@@ -610,4 +610,32 @@ def k1e(cx):
     n += 1
     cx.check(len(res) == 1 and res[0]["exc"] is None and res[0]["result"] == ("float64", 0.5) and conv == [0.5], None, construct="by-value scalar argument", detail="converted with the declared scalar type",
              bad_detail=f"by-value scalars are not converted with the declared type: {res[0]['result'] if res and res[0]['exc'] is None else res[0]['exc']}", anchor="context_cpu::KernelCpu.to_function_arg", sub="scalar")
-    cx.need(n >= 11, f"only {n} argument cases evaluated")
+    # a SEQUENCE of by-value scalars through one converter: every call delivers ITS value (values that are equal for
+    # Python -- 0.0 and -0.0, 1 and 1.0 and True -- are different bit patterns / must be converted by the declared type
+    # each time; a memo keyed by the value hands the first one out again -- seeded C17-g)
+    L, I, me, rec = world("ndarray")
+    sc64 = Obj("scalar", {"_dtype": Obj("dtype", {"name": "float64"}, name="dt"), "_c_type": "double"}, name="Float64")
+    sc64.attrs["__call__"] = Builtin("Float64()", lambda v=0: ("float64", repr(float(v))))
+    sci = Obj("scalar", {"_dtype": Obj("dtype", {"name": "int64"}, name="dti"), "_c_type": "int64_t"}, name="Int64")
+    sci.attrs["__call__"] = Builtin("Int64()", lambda v=0: ("int64", repr(int(v))))
+    a64 = Obj("instance", {"pointer": False, "atype": sc64, "name": "s"}, name="arg")
+    ai = Obj("instance", {"pointer": False, "atype": sci, "name": "k"}, name="argk")
+    seq = [(a64, 0.0), (a64, -0.0), (a64, 1), (ai, 1), (ai, True), (a64, 1.0), (a64, -0.0)]
+
+    def calls():
+        return [I.call(I.getattr(me, "to_function_arg"), [a_, v_], {}) for a_, v_ in seq]
+
+    res = I.explore(calls, max_paths=4)
+    cx.recog(len(res) == 1, fn, f"to_function_arg(sequence of scalars): {len(res)} paths")
+    n += 1
+    if res[0]["exc"] is not None:
+        cx.recog(res[0]["exc"].etype not in ("AttributeError", "NameError"), fn, f"sequence of scalars: {res[0]['exc'].etype}: {res[0]['exc'].msg}")
+        cx.bad(None, construct="sequence of by-value scalars", detail=f"raises {res[0]['exc'].etype}: {res[0]['exc'].msg}", anchor="context_cpu::KernelCpu.to_function_arg", sub="scalar.sequence")
+    else:
+        want = [("float64", repr(float(v_))) if a_ is a64 else ("int64", repr(int(v_))) for a_, v_ in seq]
+        got = res[0]["result"]
+        k_ = next((i for i, (g_, w_) in enumerate(zip(got, want)) if g_ != w_), None)
+        cx.check(k_ is None, None, construct="by-value scalars 0.0, -0.0, 1 (double), 1 (int64), True (int64), 1.0, -0.0 through one converter", detail="every call delivers its own value, converted by the declared type",
+                 bad_detail=(f"call {k_ + 1} was given {seq[k_][1]!r} for a {'double' if seq[k_][0] is a64 else 'int64_t'} argument and delivers {got[k_]!r} (expected {want[k_]!r}): an earlier call's result is handed out again for a value that merely compares equal" if k_ is not None else ""),
+                 anchor="context_cpu::KernelCpu.to_function_arg", sub="scalar.sequence")
+    cx.need(n >= 12, f"only {n} argument cases evaluated")
